@@ -112,7 +112,7 @@ def shift_width(facts, res):
                     bad = (lvl, v)
             res.instance(R, "%s::getUpperBound<Dim=%d>" % (cls, dim), facts.loc(ms[0]), "folded for levels 0..%d: 2^(level*Dim)" % (63 // dim))
             if bad:
-                res.violation(R, tbf.rel(facts.path_of(ms[0])), ms[0]["qname"], "upper-bound<Dim=%d>" % dim, ms[0]["l"][1],
+                res.violation(R, tbf.rel(facts.path_of(ms[0])), ms[0]["qname"], "upper-bound<Dim=%d>@level%d" % (dim, bad[0]), ms[0]["l"][1],
                               "upper bound of level %d folds to %r, not 2^(level*Dim) = %d: indices and their range would use different widths" % (bad[0], bad[1], 1 << (bad[0] * dim)))
 
 
@@ -215,6 +215,9 @@ def bit_laws(facts, res):
         if not isinstance(got, Bits):
             if isinstance(got, int) and not isinstance(got, bool):
                 got = Bits.const(got)
+            elif isinstance(got, bitdep.Undefined):
+                res.violation(R, tbf.rel(facts.path_of(fn)), fn["qname"], key, fn["l"][1], "%s is undefined for inputs inside the 63-bit range: %s" % (what, got.why))
+                return False
             else:
                 raise AnalysisBroken("%s: %s evaluates to %r in the bit-provenance run" % (fn["qname"], what, got))
         for j in range(64):
@@ -224,6 +227,37 @@ def bit_laws(facts, res):
                               % (what, j, bitdep.describe(got.b[j]), bitdep.describe(want[j])))
                 return False
         return True
+
+    def run_fn(fn, consts, opaque, cls, args_abs, cands, key, what):
+        """abstract run; termination: proven when every data-dependent loop exits definitely under the abstract state.
+        When the abstract run cycles, the function is folded on boundary constants of its input domain; a fold that provably
+        cycles (condition constantly true, state unchanged) is a witness of non-termination: violation.  No witness: no verdict."""
+        it = bitdep.Interp(facts, consts, opaque, cls=cls)
+        try:
+            out = it.call(fn, args_abs())
+            capped = [st for st in it.loop_status.values() if st[1] == "capped"]
+            if capped:
+                raise AnalysisBroken("%s: termination of the loop at line %d neither proven nor refuted in %d abstract turns" % (key, capped[0][0]["l"][1], capped[0][2]))
+            res.instance(R + ".termination", key, facts.loc(fn), "every data-dependent loop exits for every input of the domain (abstract run: %s)" % ", ".join("line %d after <= %d turns" % (st[0]["l"][1], st[2]) for st in it.loop_status.values()))
+            return it, out
+        except bitdep.NonTerminating as e:
+            loop = e.node
+        for c in cands:
+            it2 = bitdep.Interp(facts, consts, opaque, cls=cls)
+            try:
+                it2.call(fn, [list(x) if isinstance(x, list) else x for x in c])
+            except bitdep.NonTerminating:
+                res.violation(R + ".termination", tbf.rel(facts.path_of(loop)), fn["qname"], key + ":loop@%d" % loop["l"][1], loop["l"][1],
+                              "%s never returns for the valid input %s (index fits 63 bits): constant folding of the function on this input reaches a state where the loop condition is constantly true and nothing changes any more" % (what, c))
+                break
+            except AnalysisBroken:
+                continue
+        else:
+            raise AnalysisBroken("%s: the abstract run cycles in the loop at line %d but no boundary input reproduces it: termination neither proven nor refuted" % (key, loop["l"][1]))
+        # provenance of what the loop has produced when the abstract run stops changing (the value a terminating variant would return)
+        it = bitdep.Interp(facts, consts, opaque, cls=cls)
+        it.stop_on_cycle = True
+        return it, it.call(fn, args_abs())
 
     def interleave(dim, wd, src="x%d"):
         return [exact(src % (dim - 1 - j % dim), j // dim) if j < dim * wd else 0 for j in range(64)]
@@ -236,9 +270,11 @@ def bit_laws(facts, res):
             consts = {"Dim": dim}
             # encoder
             fn = one(cls, "getIndexFromBoxPos")
-            it = bitdep.Interp(facts, consts, opaque, cls=cls)
-            out = it.call(fn, [[Bits.input("x%d" % d, wd) for d in range(dim)]])
             key = "%s::getIndexFromBoxPos<Dim=%d>" % (cls, dim)
+            import itertools
+            pts = sorted(set([0, 1, (1 << (wd - 1)), (1 << wd) - 1]))
+            cands = [[list(c)] for c in itertools.product(pts, repeat=dim)]
+            it, out = run_fn(fn, consts, opaque, cls, lambda: [[Bits.input("x%d" % d, wd) for d in range(dim)]], cands, key, "the coordinate -> index conversion")
             if hil:
                 calls = [c for c in it.opaque_calls if c[0] == "Morton2Hilbert"]
                 if not calls:
@@ -254,9 +290,10 @@ def bit_laws(facts, res):
             n += 1
             # decoder
             fn = one(cls, "getBoxPosFromIndex")
-            it = bitdep.Interp(facts, consts, opaque, cls=cls)
-            out = it.call(fn, [Bits.input("m", dim * wd)])
             key = "%s::getBoxPosFromIndex<Dim=%d>" % (cls, dim)
+            nb = dim * wd
+            cands = [[m] for m in sorted(set([0, 1, 1 << (nb - 1), (1 << nb) - 1, (1 << (nb - 1)) | 1]))]
+            it, out = run_fn(fn, consts, opaque, cls, lambda: [Bits.input("m", dim * wd)], cands, key, "the index -> coordinate conversion")
             src = "m"
             if hil:
                 calls = [c for c in it.opaque_calls if c[0] == "Hilbert2Morton"]
